@@ -11,6 +11,7 @@ import common
 import mkdata
 import pipeline as P
 import c04ext
+import c04obj
 from common import dec, req
 
 RULE = (
@@ -37,6 +38,16 @@ RULE = (
     "(E2E) the command line (read_pin, brew or --load_models, assign_confidence; 1-2 files, --aggregate, "
     "--keep_decoys, --ensemble, --subset_max_train) against an independent competition + C01 q-values on the scores "
     "of a reference brew; "
+    "(second pass) (T2x) the same runs with the local constant chunk_range of make_train_sets replaced by 1/7/16 (the "
+    "loop taken only by files above 5 000 000 rows), the Model object handed in must come back unfitted and is handed "
+    "to a second brew call; (T2c) the real make_train_sets with a small chunk_range called directly on random folds "
+    "of 1-2 files, with/without a cap: no held-out row, no repetition, and equality with the Lean loop; (T2r) ONE "
+    "trained Model around a memorising probe whose copies carry tags of their own and whose re-fit gets worse in "
+    "all / some / no folds (reset path, warm start): the object handed in is never fitted, every call producing "
+    "the returned scores is made by an object not fitted in this call on the rows it scores nor on their spectra, "
+    "reset scores are an affine image of the outputs of the object handed in; memories of the objects, the reset "
+    "decision and the scores are compared with the Lean model; (T3 at the peptide level) every row of a peptide-level "
+    "result file is a PSM-level winner, one per peptide; "
     "distinct = distinct (data seed, learner, fold, alpha / option tuple); non-trivial = every case"
 )
 ALPHAS = [Fraction(1, 100), Fraction(1, 20), Fraction(1, 10), Fraction(1, 4), Fraction(1, 2)]
@@ -77,6 +88,9 @@ def counts_case(chk, rng):
     fmt = rng.choice(["pin", "pin", "parquet"])
     coarse = rng.choice([None, None, 4, 25])   # score levels: None = continuous (tie-free), else many tied scores
     desc = rng.random() < 0.75
+    # rows per temporary sorted chunk file (None = one chunk): with several chunks the two PSMs of a spectrum can
+    # sit in different chunk files, so that the loser of a spectrum reaches the streaming scan (confidence.py:750-766)
+    chunk = rng.choice([None, 25, 101])
     tabs = []
     for k in range(ncoll):
         df, truth = simulate(r, rng.choice([150, 300]) if ncoll == 1 else 120)
@@ -90,7 +104,7 @@ def counts_case(chk, rng):
         out = d / "out"; out.mkdir()
         prefixes = [None] * ncoll if (shared or ncoll == 1) else [f"p{k}" for k in range(ncoll)]
         try:
-            with P.pep_kernel(stub=True):
+            with P.pep_kernel(stub=True), P.chunk_sizes(**({"confidence": chunk} if chunk else {})):
                 P.run_assign_confidence(dss, [sc if desc else -sc for _, sc in tabs], out, prefixes=prefixes,
                                         descs=[desc] * ncoll, decoys=True)
         except Exception as e:
@@ -99,6 +113,7 @@ def counts_case(chk, rng):
         chk.count("T1-collections", ncoll); chk.count("T1-format", fmt); chk.count("T1-desc", desc)
         chk.count("T1-scores", "continuous" if coarse is None else f"{2 * coarse + 1}-levels")
         chk.count("T1-files", "shared" if (ncoll > 1 and shared) else "own")
+        chk.count("T1-confidence-chunk", str(chunk))
         for k, (df, sc) in enumerate(tabs):
             pre = f"{prefixes[k]}." if prefixes[k] else ""
             for level in ("psms", "peptides"):
@@ -123,6 +138,25 @@ def counts_case(chk, rng):
                                            dict(seed=seed, collection=k,
                                                 clause="the PSM-level result does not hold exactly one PSM per spectrum"))
                         return
+                else:
+                    # T3 at the roll-up level: every peptide-level row has won the competition for its spectrum
+                    # (it is a row of the PSM-level files of this collection) and represents its peptide alone
+                    # (Lean: C04_rollup_qvalues_after_both_competitions)
+                    losers = sorted(set(ids) - psm_level_ids)
+                    peps = df.set_index("SpecId").loc[ids, "Peptide"]
+                    if losers or peps.duplicated().any() or \
+                            len(ids) != df.set_index("SpecId").loc[sorted(psm_level_ids), "Peptide"].nunique():
+                        chk.spec_violation("qvalues-before-competition-at-peptide-level",
+                                           dict(seed=seed, collection=k, rows_that_lost_their_spectrum=losers[:6],
+                                                confidence_chunk=chunk, collections=ncoll, format=fmt, desc=desc,
+                                                peptide_rows=len(ids), psm_level_rows=len(psm_level_ids),
+                                                clause="the peptide-level result holds a PSM that lost the competition "
+                                                       "for its spectrum, a peptide twice, or not every peptide of the "
+                                                       "PSM-level winners: peptide q-values are not computed on the "
+                                                       "winners of both competitions"))
+                        return
+                    chk.count("T3-peptide-level-checked")
+                psm_level_ids = set(ids) if level == "psms" else psm_level_ids
                 # decoys counted independently of the files (tie-free scores only: the winners are then determined)
                 indep = None
                 if coarse is None and level == "psms":
@@ -244,7 +278,7 @@ def noninterference_case(chk, rng):
 
     seed = rng.randrange(1 << 30)
     r = random.Random(seed)
-    folds = rng.choice([3, 3, 4, 5])
+    folds = rng.choice([2, 3, 3, 4, 5])      # the property quantifies over folds 2..5
     learner = rng.choice(["svm", "tree"])
     df, _ = simulate(r, rng.choice([400, 600]), pi0=0.4)
     bseed = rng.randrange(10000)
@@ -333,6 +367,8 @@ def fdp_search(chk):
     for _ in range(10 * chk.budget_mult):
         c04ext.options_case(chk, chk.rng)
         c04ext.rollup_tool_case(chk, chk.rng)
+        c04obj.reset_case(chk, chk.rng)
+        c04obj.trainloop_case(chk, chk.rng)
         if chk.spec_violations:
             return
     for _ in range(2 * chk.budget_mult):
@@ -402,6 +438,8 @@ def main(chk, args):
     timed("T2x-brew-options", c04ext.options_case, 7 if quick else 120)
     timed("T5x-rollup-tool", c04ext.rollup_tool_case, 5 if quick else 80)
     timed("E2E-cli-pipeline", c04ext.pipeline_case, 2 if quick else 40)
+    timed("T2r-one-trained-model", c04obj.reset_case, 5 if quick else 100)
+    timed("T2c-train-loop", c04obj.trainloop_case, 10 if quick else 300)
     chk.extra["wall_by_case_kind_s"] = walls
     lc = common.leanchecker("C04") if chk.tier == "thorough" else None
     chk.assumptions += [
@@ -416,6 +454,12 @@ def main(chk, args):
         "claimed for ensemble=False only; the ensemble path is compared with its model, not judged",
         "a list of pre-trained models re-scores the folds of the split drawn from the SAME seed; with another seed the "
         "folds differ and the models have seen the rows they score (documented caller obligation, brew.py:54-59)",
+        "the 5 000 000-row loop of make_train_sets is executed by rebuilding the real function from its own code object "
+        "with the one constant replaced (harness/c04obj.py: chunk_range); if the constant is not found the cases are "
+        "tallied as rejected (T2x/T2c-chunk-range-constant-not-found)",
+        "reset path: the scores are calibrated by OnDiskPsmDataset.calibrate_scores (C11's subject); the check decides "
+        "WHICH object scored (the one handed in, never fitted in this call) and that the result is an affine image of "
+        "its outputs; a non-increasing calibration is tallied (T2r-calibration-not-increasing)",
     ]
     chk.finish(build, RULE, search=fdp_search, lc=lc,
                trusted_extra=["theorems of C01, C02, C03 (imported)", "sklearn LinearSVC / DecisionTreeClassifier determinism"])
@@ -426,7 +470,7 @@ def replay(chk, path):
     print(json.dumps(info, indent=1)[:3000])
     sig, case = str(info.get("signature", "")), info.get("case")
     runner = {"T2x": c04ext.options_case, "T5x": c04ext.rollup_tool_case, "T1x": c04ext.rollup_tool_case,
-              "E2E": c04ext.pipeline_case}.get(sig[:3])
+              "E2E": c04ext.pipeline_case, "T2r": c04obj.reset_case, "T2c": c04obj.trainloop_case}.get(sig[:3])
     if runner is None or not isinstance(case, dict):
         return 0
     common.build_and_audit("C04")
